@@ -179,11 +179,6 @@ theorem noSpec_specBody (cls : String → Bool) (s : Spec) :
 
 /-! ### the spectrum list -/
 
-/-- index of the `<spectrum …>` line of every spectrum of `ss` when the first one sits at index `i` -/
-def specStarts (cls : String → Bool) (i : Nat) : List Spec → List Nat
-  | [] => []
-  | s :: r => i :: specStarts cls (i + (renderSpec cls s).length) r
-
 theorem specStarts_eq (cls : String → Bool) (i : Nat) (ss : List Spec) :
     specStarts cls i ss
       = (List.range ss.length).map (fun j => i + ((ss.take j).map (fun s => (renderSpec cls s).length)).sum) := by
@@ -257,6 +252,47 @@ theorem idxRun_renderSpectra (cls : String → Bool) (d : Doc) (s0 : Spec) (rest
   congr 2
   omega
 
+/-- the one-pass list of call lines is the list of `callLine k` -/
+theorem callLinesFast_eq (cls : String → Bool) (d : Doc) :
+    callLinesFast cls d = (List.range d.spectra.length).map (callLine cls d) := by
+  unfold callLinesFast
+  cases hsp : d.spectra with
+  | nil => rfl
+  | cons s0 srest =>
+    simp only [specStarts_eq, List.length_cons, List.range_succ_eq_map, List.map_cons, List.map_map]
+    congr 1
+    apply List.map_congr_left
+    intro j _
+    simp only [Function.comp, callLine, hsp, List.take_succ_cons, List.map_cons, List.sum_cons]
+    simp
+    omega
+
+theorem prefixSums_getElem? (acc : Nat) (lens : List Nat) (i : Nat) :
+    (prefixSums acc lens)[i]? = if i < lens.length then some (acc + (lens.take (i + 1)).sum) else none := by
+  induction lens generalizing acc i with
+  | nil => simp [prefixSums]
+  | cons n r ih =>
+    cases i with
+    | zero => simp [prefixSums]
+    | succ j =>
+      simp only [prefixSums, List.getElem?_cons_succ, ih, List.length_cons, Nat.add_lt_add_iff_right,
+        List.take_succ_cons, List.sum_cons]
+      split <;> simp [Nat.add_assoc]
+
+/-- the one-pass positions are `callPositions` (any document, any lengths) -/
+theorem callPositionsFast_eq' (cls : String → Bool) (d : Doc) (lens : List Nat) :
+    callPositionsFast cls d lens = callPositions cls d lens := by
+  unfold callPositionsFast callPositions
+  rw [callLinesFast_eq, List.map_map]
+  apply List.map_congr_left
+  intro k _
+  simp only [Function.comp, List.getElem?_toArray, prefixSums_getElem?, Nat.zero_add]
+  split
+  · rfl
+  · rename_i h
+    simp only [Option.getD_none]
+    rw [List.take_of_length_le (by omega)]
+
 /-- under the layout the callback is invoked on the lines `callLine 0, callLine 1, …` -/
 theorem idxRun_render (cls : String → Bool) (d : Doc) (h : LayoutCore cls d) :
     idxRun Core.init 0 (render cls d) = (List.range d.spectra.length).map (callLine cls d) := by
@@ -264,16 +300,8 @@ theorem idxRun_render (cls : String → Bool) (d : Doc) (h : LayoutCore cls d) :
   obtain ⟨s0, srest, x0, xs, hsp, hx0, hxrest, _⟩ := spectra_agree cls d h
   unfold render
   rw [idxRun_append, idxRun_append, idxRun_none _ _ _ (noSpec_head cls d), idxRun_none _ _ _ (noSpec_tail cls d), hhead]
-  rw [idxRun_renderSpectra cls d s0 srest x0 xs _ rfl rfl _ hsp hx0 hxrest, specStarts_eq]
-  rw [hsp]
-  simp only [List.nil_append, List.append_nil, List.length_cons, List.range_succ_eq_map, List.map_cons, List.map_map,
-    Nat.zero_add]
-  congr 1
-  apply List.map_congr_left
-  intro j _
-  simp only [Function.comp, callLine, hsp, List.take_succ_cons, List.map_cons, List.sum_cons]
-  simp
-  omega
+  rw [idxRun_renderSpectra cls d s0 srest x0 xs _ rfl rfl _ hsp hx0 hxrest, ← callLinesFast_eq]
+  simp [callLinesFast, hsp]
 
 theorem calls_tt (cls : String → Bool) (d : Doc) (h : LayoutCore cls d) (ls : List (Line × Nat))
     (hls : ls.map Prod.fst = render cls d) :
